@@ -131,6 +131,89 @@ def run(ctx):
     r5(ctx)
 
 
+def label_cells(ctx, lab):
+    """the bytes of a chain label, one cell per byte: ('lit', value) or (source canon, byte k of the source, source width, source term);
+    None when a write is not understood.  Reads a literal array (bytes may be picked from `x.to_le_bytes()`), later stores of a constant
+    at a constant index, and 4-byte little-endian writes / copies into a constant sub-range."""
+    from . import bytelayout, ilen
+    from bpsa.terms import ev_site
+    base = strip(lab)
+    try:
+        cells = []
+        if base.tag == 'array':
+            for a in base.args:
+                a0 = strip(a)
+                if a0.tag == 'const' and isinstance(a0[1], int) and not isinstance(a0[1], bool):
+                    cells.append(('lit', a0[1]))
+                elif a0.tag == 'elemat' and strip(a0[2]).tag == 'const' and isinstance(strip(a0[2])[1], int):
+                    src = strip(a0[1])
+                    w = ilen.clen(src)
+                    if not ilen.is_const(w):
+                        return None
+                    cells.append((canon(src), strip(a0[2])[1], w.get((), 0), src))
+                else:
+                    return None
+        elif base.tag == 'repeatv' and str(base[2]).isdigit() and strip(base[1]).tag == 'const':
+            cells = [('lit', strip(base[1])[1])] * int(base[2])
+        else:
+            return None
+        for e in (lab[2] if lab.tag == 'mut' else ()):
+            if e.tag != 'ev':
+                continue
+            bkey, bb = ev_site(e)
+            body = ctx.facts.by_key.get(bkey)
+            if body is None:
+                return None
+            if e[1] == 'store':
+                # the index of the stored element, from the statement itself
+                sidx = e[4][-1][0] if e[4] and len(e[4][-1]) == 1 else None
+                st = body.block[bb]['stmts'][sidx] if sidx is not None and sidx < len(body.block[bb]['stmts']) else None
+                off = None
+                for p_ in (st['place']['p'] if st else []):
+                    if p_['k'] == 'cindex' and not p_.get('from_end'):
+                        off = p_['off']
+                    elif p_['k'] == 'index':
+                        it_ = strip(ctx.eng.local(body, bb, sidx, p_['l']))
+                        if it_.tag == 'const' and isinstance(it_[1], int) and not isinstance(it_[1], bool):
+                            off = it_[1]
+                v = strip(e[3][0])
+                if off is None or not (v.tag == 'const' and isinstance(v[1], int)) or not (0 <= off < len(cells)):
+                    return None
+                cells[off] = ('lit', v[1])
+                continue
+            nm = e[2].split('::')[-1]
+            if nm in ('index_mut', 'get_mut', 'as_mut', 'deref_mut', 'as_mut_slice'):
+                continue
+            if nm in ('copy_from_slice', 'clone_from_slice', 'write_u32') and e[3]:
+                recv = ctx.args(body, bb)[0]
+                lay = bytelayout.Layout(lambda site: None)
+                r0 = strip(recv)
+                if r0.tag != 'elemat':
+                    return None
+                rb = ilen.range_bounds(r0[2], r0[1])
+                if rb is None or not ilen.is_const(rb[0]) or not ilen.is_const(rb[1]):
+                    return None
+                lo, hi = rb[0].get((), 0), rb[1].get((), 0)
+                val = strip(e[3][-1])
+                if nm == 'write_u32':
+                    if hi - lo != 4 or 'LittleEndian' not in ' '.join(str(x) for x in (callee_name(t2) for _, t2 in ctx.calls(body) if callee_decl(t2).endswith('write_u32'))):
+                        return None
+                    src_cells = [('LE32:' + canon(val), k, 4, val) for k in range(4)]
+                else:
+                    w = ilen.clen(val)
+                    if not ilen.is_const(w) or w.get((), 0) != hi - lo:
+                        return None
+                    src_cells = [(canon(val), k, hi - lo, val) for k in range(hi - lo)]
+                if not (0 <= lo <= hi <= len(cells)):
+                    return None
+                cells[lo:hi] = src_cells
+                continue
+            return None
+        return cells
+    except (ilen.NoLen, bytelayout.Unknown, KeyError, IndexError, TypeError):
+        return None
+
+
 def r1(ctx, new):
     rep = ctx.rep
     # chain constructions in the constructor and in the private helpers it delegates to (arguments in the constructor's vocabulary)
@@ -215,6 +298,22 @@ def r1(ctx, new):
                 idxs = [y for y in walk(src) if y.tag == 'index']
                 pure = bool(conv) and bool(idxs) and not ctx.adapters(src)
                 det = short(src, 100)
+        if not (pure or (ok_shape and len(wr) == 1 and le and idx_ok and rng_ok)):
+            # any other way of putting the five bytes together (a literal with some bytes stored later, a copy into label[1..5]):
+            # evaluate the label byte by byte
+            cells = label_cells(ctx, lab)
+            if cells is not None and len(cells) == 5 and cells[0][0] == 'lit' and all(c[0] != 'lit' for c in cells[1:]):
+                srcs = {c[0] for c in cells[1:]}
+                if len(srcs) == 1 and [c[1] for c in cells[1:]] == [0, 1, 2, 3] and all(c[2] == 4 for c in cells[1:]):
+                    sterm = cells[1][3]
+                    le_ = any(x.tag == 'call' and x[1].endswith('<impl u32>::to_le_bytes') for x in walk(sterm)) or cells[1][0].startswith('LE32:')
+                    conv = [y for y in walk(sterm) if y.tag == 'call' and y[1].endswith('try_from')]
+                    idxs = [y for y in walk(sterm) if y.tag == 'index']
+                    if le_ and conv and idxs and not ctx.adapters(sterm):
+                        pure = True
+                        tag = cells[0][1]
+                        tags[target or 'chain%d' % n] = tag
+                        det = short(sterm, 100)
         rep.check(pure or (ok_shape and len(wr) == 1 and le and idx_ok and rng_ok), 'R-C11-1', 'R-C11-1/chain%d/label' % n,
                   'label %d is [tag, LE32(party index)] with the party index = checked u32 of the loop index (%s)' % (n, det),
                   'label %d: 5-byte array=%s, one little-endian 4-byte write=%s/%s, into bytes 1..5=%s, index is the loop index=%s (%s)' % (n, ok_shape, len(wr), le, rng_ok, idx_ok, det), where)
